@@ -783,6 +783,23 @@ class C20(object):
                                           "content of output/work buffers, stack and heap (first differing byte %d of %d): "
                                           "not fully written, or computed from uninitialised memory" % (an, k, b1.size)}
                         break
+        if viol is None and name == "sparse_blob2Dproperties":
+            # integer overflow is undefined behaviour the access seam cannot see; at the extreme coordinates a uint16 index
+            # allows (products beyond 2^31) it shows in the values: the sums are compared with their definition
+            vv = desc["vals"]
+            v_, i_, j_ = np.array(vv["v"], float), np.array(vv["i"], float), np.array(vv["j"], float)
+            lab_ = np.array(vv["labels"], int)
+            got_ = np.asarray(res[0][1]["results"], float).reshape(-1, NPROPERTY2D)
+            for pk in range(vv["npk"]):
+                sel = lab_ == pk + 1
+                want_ = [sel.sum(), v_[sel].sum(), (v_ * j_)[sel].sum(), (v_ * i_)[sel].sum(), (v_ * j_ * j_)[sel].sum(),
+                         (v_ * i_ * j_)[sel].sum(), (v_ * i_ * i_)[sel].sum()]
+                if not np.allclose(got_[pk, :7], want_, rtol=1e-9, atol=1e-6):
+                    viol = {"class": "wrong-values", "key": name + ":wrong-values",
+                            "detail": "moments of peak %d (coordinates up to %d, %d) are %s, their definition gives %s: integer "
+                                      "arithmetic overflowed" % (pk + 1, int(i_.max()), int(j_.max()), np.round(got_[pk, :7], 1).tolist(),
+                                                                 np.round(want_, 1).tolist())}
+                    break
         nconc = 0
         f2 = None
         if viol is None and desc.get("f2py_route"):
